@@ -27,6 +27,7 @@ import (
 	"verifharness/internal/cq"
 	"verifharness/internal/out"
 	"verifharness/internal/pd"
+	"verifharness/internal/pdftok"
 	"verifharness/internal/rng"
 )
 
@@ -127,9 +128,277 @@ func pathGeo(p *canvas.Path) (string, bool) {
 	return geoTerm(out), true
 }
 
+// ---- gradients: the canvas' gradients of one drawing program form a pool; a paint is named by its index in the pool (PGrad id).
+// What a back-end wrote for a gradient paint is read back (SVG <linearGradient>/<radialGradient> element with its stops; PDF
+// shading pattern with its stitched exponential functions), interpreted in canvas coordinates (SVG: y -> H - y; PDF: points ->
+// mm) and given the id of the pool gradient it describes: same kind, same circles / end points, same colour at 33 positions
+// along the gradient vector.  Anything else (other units, a transformation, no padding, unknown keys) gets the id 99.
+type gradDesc struct {
+	radial bool
+	coords []float64 // linear: x0 y0 x1 y1; radial: x0 y0 r0 x1 y1 r1 (canvas coordinates, mm)
+	col    func(t float64) [3]float64
+}
+
+var gradPool []canvas.Gradient
+
+func stopsAt(stops canvas.Stops, t float64) [3]float64 {
+	// the reference: colours are interpolated linearly between neighbouring stops and held constant outside (opaque stops only)
+	f := func(c color.RGBA) [3]float64 { return [3]float64{float64(c.R), float64(c.G), float64(c.B)} }
+	if len(stops) == 0 {
+		return [3]float64{}
+	}
+	if t <= stops[0].Offset {
+		return f(stops[0].Color)
+	}
+	for k := 1; k < len(stops); k++ {
+		if t <= stops[k].Offset {
+			a, b := stops[k-1], stops[k]
+			if b.Offset == a.Offset {
+				return f(b.Color)
+			}
+			u := (t - a.Offset) / (b.Offset - a.Offset)
+			ca, cb := f(a.Color), f(b.Color)
+			return [3]float64{ca[0] + u*(cb[0]-ca[0]), ca[1] + u*(cb[1]-ca[1]), ca[2] + u*(cb[2]-ca[2])}
+		}
+	}
+	return f(stops[len(stops)-1].Color)
+}
+
+func poolDesc(g canvas.Gradient) gradDesc {
+	switch v := g.(type) {
+	case *canvas.LinearGradient:
+		st := append(canvas.Stops{}, v.Stops...)
+		return gradDesc{false, []float64{v.Start.X, v.Start.Y, v.End.X, v.End.Y}, func(t float64) [3]float64 { return stopsAt(st, t) }}
+	case *canvas.RadialGradient:
+		st := append(canvas.Stops{}, v.Stops...)
+		return gradDesc{true, []float64{v.C0.X, v.C0.Y, v.R0, v.C1.X, v.C1.Y, v.R1}, func(t float64) [3]float64 { return stopsAt(st, t) }}
+	}
+	return gradDesc{}
+}
+
+// gradID: the pool gradient that d describes, or 99
+func gradID(d gradDesc) int {
+	for j, g := range gradPool {
+		w := poolDesc(g)
+		if w.radial != d.radial || len(w.coords) != len(d.coords) {
+			continue
+		}
+		ok := true
+		for k := range w.coords {
+			if math.Abs(w.coords[k]-d.coords[k]) > 1e-5+1e-6*math.Abs(w.coords[k]) {
+				ok = false
+			}
+		}
+		for k := 0; ok && k <= 32; k++ {
+			a, b := w.col(float64(k)/32), d.col(float64(k)/32)
+			for ch := 0; ch < 3; ch++ {
+				if math.Abs(a[ch]-b[ch]) > 1.01 {
+					ok = false
+				}
+			}
+		}
+		if ok {
+			return j + 1
+		}
+	}
+	return 99
+}
+
+var svgGradRe = regexp.MustCompile(`<(linearGradient|radialGradient)((?: [a-zA-Z0-9-]+="[^"]*")*)>(.*?)</(?:linearGradient|radialGradient)>`)
+var svgStopRe = regexp.MustCompile(`<stop((?: [a-zA-Z-]+="[^"]*")*)/>`)
+var svgAttrRe2 = regexp.MustCompile(` ([a-zA-Z0-9-]+)="([^"]*)"`)
+var svgGrads map[string]int
+
+// svgGradients reads the gradient definitions of an SVG document (height H mm, y pointing down)
+func svgGradients(b []byte, H float64) map[string]int {
+	ids := map[string]int{}
+	for _, m := range svgGradRe.FindAllSubmatch(b, -1) {
+		attrs := map[string]string{}
+		for _, a := range svgAttrRe2.FindAllSubmatch(m[2], -1) {
+			attrs[string(a[1])] = string(a[2])
+		}
+		id := attrs["id"]
+		ids[id] = 99
+		if attrs["gradientUnits"] != "userSpaceOnUse" {
+			continue
+		}
+		bad := false
+		num := func(k string) float64 {
+			v, err := strconv.ParseFloat(attrs[k], 64)
+			if err != nil {
+				bad = true
+			}
+			return v
+		}
+		var d gradDesc
+		var keys []string
+		if string(m[1]) == "linearGradient" {
+			d = gradDesc{radial: false, coords: []float64{num("x1"), H - num("y1"), num("x2"), H - num("y2")}}
+			keys = []string{"id", "gradientUnits", "x1", "y1", "x2", "y2"}
+		} else {
+			// the focal circle (fx, fy, fr) is where the gradient starts, (cx, cy, r) where it ends
+			d = gradDesc{radial: true, coords: []float64{num("fx"), H - num("fy"), num("fr"), num("cx"), H - num("cy"), num("r")}}
+			keys = []string{"id", "gradientUnits", "fx", "fy", "fr", "cx", "cy", "r"}
+		}
+		if len(attrs) != len(keys) { // gradientTransform, spreadMethod, href: not interpreted
+			bad = true
+		}
+		var stops canvas.Stops
+		for _, sm := range svgStopRe.FindAllSubmatch(m[3], -1) {
+			sa := map[string]string{}
+			for _, a := range svgAttrRe2.FindAllSubmatch(sm[1], -1) {
+				sa[string(a[1])] = string(a[2])
+			}
+			off, err := strconv.ParseFloat(sa["offset"], 64)
+			kind, rgb, alpha, err2 := svgColour(sa["stop-color"])
+			if err != nil || err2 != nil || kind != 2 || alpha != "1" || len(sa) != 2 {
+				bad = true
+				continue
+			}
+			stops = append(stops, canvas.Stop{Offset: off, Color: color.RGBA{uint8(rgb[0]), uint8(rgb[1]), uint8(rgb[2]), 255}})
+		}
+		if bad || len(stops) == 0 {
+			continue
+		}
+		d.col = func(t float64) [3]float64 { return stopsAt(stops, t) }
+		ids[id] = gradID(d)
+	}
+	return ids
+}
+
+// pdfFunc evaluates a PDF function dictionary (types 2 and 3) with a three-component range at t
+func pdfFunc(f pdftok.Val, t float64) ([3]float64, bool) {
+	num := func(v pdftok.Val) float64 {
+		if v.K == pdftok.Int {
+			return float64(v.I)
+		}
+		return float64(v.I) / float64(v.D)
+	}
+	arr := func(k string) []float64 {
+		v, ok := f.Get(k)
+		if !ok || v.K != pdftok.Arr {
+			return nil
+		}
+		var r []float64
+		for _, x := range v.A {
+			r = append(r, num(x))
+		}
+		return r
+	}
+	ft, _ := f.Get("FunctionType")
+	dom := arr("Domain")
+	if len(dom) != 2 {
+		return [3]float64{}, false
+	}
+	t = math.Max(dom[0], math.Min(dom[1], t))
+	switch ft.I {
+	case 2:
+		c0, c1 := arr("C0"), arr("C1")
+		n, ok := f.Get("N")
+		if len(c0) != 3 || len(c1) != 3 || !ok {
+			return [3]float64{}, false
+		}
+		u := math.Pow(t, num(n))
+		return [3]float64{c0[0] + u*(c1[0]-c0[0]), c0[1] + u*(c1[1]-c0[1]), c0[2] + u*(c1[2]-c0[2])}, true
+	case 3:
+		fs, ok := f.Get("Functions")
+		bounds, enc := arr("Bounds"), arr("Encode")
+		if !ok || fs.K != pdftok.Arr || len(bounds) != len(fs.A)-1 || len(enc) != 2*len(fs.A) {
+			return [3]float64{}, false
+		}
+		k := 0
+		for k < len(bounds) && t >= bounds[k] {
+			k++
+		}
+		lo, hi := dom[0], dom[1]
+		if k > 0 {
+			lo = bounds[k-1]
+		}
+		if k < len(bounds) {
+			hi = bounds[k]
+		}
+		u := enc[2*k]
+		if hi > lo {
+			u = enc[2*k] + (t-lo)/(hi-lo)*(enc[2*k+1]-enc[2*k])
+		}
+		return pdfFunc(fs.A[k], u)
+	}
+	return [3]float64{}, false
+}
+
+// pdfPatterns reads the shading patterns in the page's resources: name -> pool id (99: not a description of a pool gradient)
+func pdfPatterns(b []byte) map[string]int {
+	ids := map[string]int{}
+	f, err := pdftok.Parse(b)
+	if err != nil {
+		return ids
+	}
+	const ptPerMm = 72.0 / 25.4
+	for _, o := range f.Objs {
+		if ty, ok := o.Val.Get("Type"); !ok || string(ty.S) != "Page" {
+			continue
+		}
+		res, _ := o.Val.Get("Resources")
+		pats, ok := res.Get("Pattern")
+		if !ok {
+			continue
+		}
+		for k, name := range pats.Keys {
+			pat := pats.Vals[k]
+			ids[name] = 99
+			pt, _ := pat.Get("PatternType")
+			sh, ok := pat.Get("Shading")
+			if pt.I != 2 || !ok || len(pat.Keys) != 3 { // a /Matrix or /ExtGState entry is not interpreted
+				continue
+			}
+			st, _ := sh.Get("ShadingType")
+			cs, _ := sh.Get("ColorSpace")
+			co, _ := sh.Get("Coords")
+			ex, _ := sh.Get("Extend")
+			fn, okf := sh.Get("Function")
+			if string(cs.S) != "DeviceRGB" || !okf || len(ex.A) != 2 || !ex.A[0].B || !ex.A[1].B || len(sh.Keys) != 5 {
+				continue
+			}
+			var coords []float64
+			for _, x := range co.A {
+				v := float64(x.I)
+				if x.K == pdftok.Real {
+					v = float64(x.I) / float64(x.D)
+				}
+				coords = append(coords, v/ptPerMm)
+			}
+			d := gradDesc{radial: st.I == 3, coords: coords}
+			if !(st.I == 2 && len(coords) == 4 || st.I == 3 && len(coords) == 6) {
+				continue
+			}
+			okAll := true
+			d.col = func(t float64) [3]float64 {
+				c, ok := pdfFunc(fn, t)
+				if !ok {
+					okAll = false
+				}
+				return [3]float64{c[0] * 255, c[1] * 255, c[2] * 255}
+			}
+			id := gradID(d)
+			if okAll {
+				ids[name] = id
+			}
+		}
+	}
+	return ids
+}
+
 func paintTerm(p canvas.Paint) string {
-	if p.IsGradient() || p.IsPattern() {
-		return "(PGrad 1%Z)"
+	if p.IsGradient() {
+		for j, g := range gradPool {
+			if g == p.Gradient {
+				return fmt.Sprintf("(PGrad %d%%Z)", j+1)
+			}
+		}
+		return "(PGrad 98%Z)"
+	}
+	if p.IsPattern() {
+		return "(PGrad 97%Z)"
 	}
 	if p.Color.A == 0 {
 		return "PNone"
@@ -217,7 +486,11 @@ func svgColour(v string) (kind int, rgb [3]int, alpha string, err error) {
 	case v == "none":
 		return 1, rgb, alpha, nil
 	case strings.HasPrefix(v, "url("):
-		return 3, [3]int{1, 0, 0}, alpha, nil
+		id, ok := svgGrads[strings.TrimSuffix(strings.TrimPrefix(v, "url(#"), ")")]
+		if !ok {
+			id = 96 // reference to an element that is not a gradient of the document
+		}
+		return 3, [3]int{id, 0, 0}, alpha, nil
 	case strings.HasPrefix(v, "#") && len(v) == 4:
 		for k := 0; k < 3; k++ {
 			n, e := strconv.ParseUint(v[1+k:2+k], 16, 8)
@@ -385,6 +658,8 @@ func pdfContent(b []byte) ([]byte, map[string]string, error) {
 	return data, gs, nil
 }
 
+var pdfPats map[string]int
+
 func pdfTokens(data []byte, gs map[string]string) ([]string, string, error) {
 	fields := strings.Fields(string(data))
 	var toks, stack, segs []string
@@ -497,9 +772,23 @@ func pdfTokens(data []byte, gs map[string]string) ([]string, string, error) {
 					toks = append(toks, "Tcm "+a[0])
 				}
 			}
-		case "cs", "CS", "scn", "SCN":
+		case "cs", "CS":
+			// the colour space of the next scn/SCN: only /Pattern is written
+			if len(stack) < 1 || stack[len(stack)-1] != "/Pattern" {
+				toks = append(toks, "Tother")
+			}
 			stack = nil
-			toks = append(toks, "Tother")
+		case "scn", "SCN":
+			if len(stack) != 1 || !strings.HasPrefix(stack[0], "/") {
+				toks = append(toks, "Tother")
+			} else {
+				id, ok := pdfPats[stack[0][1:]]
+				if !ok {
+					id = 96
+				}
+				toks = append(toks, fmt.Sprintf("T%s %d%%Z", f, id))
+			}
+			stack = nil
 		default:
 			stack = nil
 			toks = append(toks, "Tother")
@@ -714,6 +1003,32 @@ func main() {
 		pool := []int{r.Intn(len(palette)), r.Intn(len(palette)), r.Intn(len(palette))} // few colours: they repeat and collide
 		widths := []float64{1, 1, 2, 0.5, rng.Pick(r, []float64{0.25, 3, 1.5})}
 		var views []string
+		// one program in four draws with gradients as well: a pool of 1-3 linear / radial gradients in canvas coordinates, whose
+		// circles and end points differ in both coordinates, with 2-4 opaque stops that need not start at 0 or end at 1
+		gradPool = nil
+		if r.P(1, 4) {
+			q4 := func(lo, hi int) float64 { return float64(r.Range(4*lo, 4*hi)) / 4 }
+			opaque := []color.RGBA{{255, 0, 0, 255}, {0, 255, 0, 255}, {0, 0, 255, 255}, {255, 255, 0, 255}, {30, 60, 90, 255}, {255, 255, 255, 255}, {0, 0, 0, 255}, {200, 100, 50, 255}}
+			for j, ng := 0, r.Range(1, 3); j < ng; j++ {
+				var g canvas.Gradient
+				offs := rng.Pick(r, [][]float64{{0, 1}, {0, 0.5, 1}, {0.2, 0.8}, {0, 0.25, 0.6, 1}, {0.1, 0.5, 1}})
+				if r.Bool() {
+					lg := canvas.NewLinearGradient(canvas.Point{X: q4(0, 40), Y: q4(0, 30)}, canvas.Point{X: q4(50, 100), Y: q4(40, 80)})
+					for _, o := range offs {
+						lg.Add(o, rng.Pick(r, opaque))
+					}
+					g = lg
+				} else {
+					r0 := q4(0, 5)
+					rg := canvas.NewRadialGradient(canvas.Point{X: q4(20, 50), Y: q4(20, 40)}, r0, canvas.Point{X: q4(30, 70), Y: q4(41, 60)}, r0+q4(5, 40))
+					for _, o := range offs {
+						rg.Add(o, rng.Pick(r, opaque))
+					}
+					g = rg
+				}
+				gradPool = append(gradPool, g)
+			}
+		}
 		var sharedDashes []float64
 		if r.P(1, 5) {
 			sharedDashes = append(make([]float64, 0, 8), 2, 1)
@@ -730,6 +1045,12 @@ func main() {
 			}
 			ctx.SetFillColor(fill)
 			ctx.SetStrokeColor(stroke)
+			if len(gradPool) > 0 && kind != 1 && r.P(1, 2) {
+				ctx.SetFillGradient(rng.Pick(r, gradPool))
+			}
+			if len(gradPool) > 0 && kind != 0 && r.P(1, 4) {
+				ctx.SetStrokeGradient(rng.Pick(r, gradPool))
+			}
 			ctx.SetStrokeWidth(rng.Pick(r, widths))
 			ctx.SetStrokeCapper(rng.Pick(r, []canvas.Capper{canvas.ButtCap, canvas.ButtCap, canvas.SquareCap, canvas.RoundCap}))
 			ctx.SetStrokeJoiner(rng.Pick(r, []canvas.Joiner{canvas.BevelJoin, canvas.MiterJoin, canvas.MiterJoin, canvas.RoundJoin,
@@ -779,6 +1100,7 @@ func main() {
 		var drawsW, drawsRef, drawsRefSvg, layerDesc []string
 		svgRefErr := ""
 		arcs := false
+		hasGrad := false
 		strokePanic := ""
 		for _, l := range rec.layers {
 			ref := "nil"
@@ -830,8 +1152,15 @@ func main() {
 				}()
 			}
 			drawsRefSvg = append(drawsRefSvg, drawTerm(l, refS))
+			pdesc := func(p canvas.Paint) string {
+				if p.IsGradient() {
+					return fmt.Sprintf("gradient%s %+v", paintTerm(p), p.Gradient)
+				}
+				return fmt.Sprint(p.Color)
+			}
+			hasGrad = hasGrad || l.style.HasFill() && l.style.Fill.IsGradient() || l.style.HasStroke() && l.style.Stroke.IsGradient()
 			layerDesc = append(layerDesc, fmt.Sprintf("path=%s fill=%v stroke=%v width=%v cap=%v join=%v dashes=%v offset=%v rule=%v m=%v",
-				l.path.String(), l.style.Fill.Color, l.style.Stroke.Color, l.style.StrokeWidth, l.style.StrokeCapper, l.style.StrokeJoiner, l.style.Dashes, l.style.DashOffset, l.style.FillRule, l.m))
+				l.path.String(), pdesc(l.style.Fill), pdesc(l.style.Stroke), l.style.StrokeWidth, l.style.StrokeCapper, l.style.StrokeJoiner, l.style.Dashes, l.style.DashOffset, l.style.FillRule, l.m))
 		}
 		desc := map[string]interface{}{"layers": layerDesc, "views": views}
 		if os.Getenv("C12_DEBUG") != "" {
@@ -876,6 +1205,7 @@ func main() {
 			var data []byte
 			var gs map[string]string
 			if data, gs, err = pdfContent(b); err == nil {
+				pdfPats = pdfPatterns(b)
 				toks, raw, err = pdfTokens(data, gs)
 			}
 		}
@@ -896,7 +1226,11 @@ func main() {
 				raw = string(b[bytes.LastIndex(b, []byte("}def"))+4:])
 			}
 		}
-		emit("ps", "KPs", toks, raw, err, cq.Bool(arcs || hasArc))
+		psFam := "ps"
+		if hasGrad {
+			psFam = "ps-gradient" // PostScript output of a program with gradient paints
+		}
+		emit(psFam, "KPs", toks, raw, err, cq.Bool(arcs || hasArc))
 		// SVG (no writer model: the elements are interpreted and judged against the layers)
 		b, err = run(func() ([]byte, error) {
 			buf := &bytes.Buffer{}
@@ -910,6 +1244,7 @@ func main() {
 		var els []string
 		raw = ""
 		if err == nil {
+			svgGrads = svgGradients(b, H)
 			els, raw, err = svgElements(b)
 		}
 		if err == nil && svgRefErr != "" {
